@@ -339,6 +339,14 @@ Theorem C01_arena_remove_returns (am : Arena.amap pfx V) es q :
                a_entries pfx V am' = Ok (Refine.a_without pfx V (kbits w) es q)).
 Proof. exact (arena_C01_remove_returns pfx V _ _ _ _ _ _ _ _ _ (laws w fl Hw) am es q). Qed.
 
+Theorem C01_arena_entry_returns (am : Arena.amap pfx V) es q x :
+  areach pfx V (peq w) (contains w fl) (is_bit_set w) plen (lcp w fl) pzero (okp w) am -> okp w q -> a_entries pfx V am = Ok es ->
+  (exists am', Arena2.a_entry_insert pfx V (peq w) (contains w fl) (is_bit_set w) plen (lcp w fl) am q x = Ok (am', a_get es q) /\
+               a_entries pfx V am' = Ok (Refine.a_insert pfx V (kbits w) es q x)) /\
+  (exists am', Arena2.a_entry_remove pfx V (peq w) (contains w fl) (is_bit_set w) plen (lcp w fl) am q = Ok (am', a_get es q) /\
+               a_entries pfx V am' = Ok (Refine.a_without pfx V (kbits w) es q)).
+Proof. exact (arena_C01_entry_returns pfx V _ _ _ _ _ _ _ _ _ (laws w fl Hw) am es q x). Qed.
+
 End C01.
 
 (* ---------------------------------------------------------------------------------------- *)
@@ -467,3 +475,4 @@ Print Assumptions C01_arena_step_refines.
 Print Assumptions C01_arena_run_refines.
 Print Assumptions C01_arena_insert_returns.
 Print Assumptions C01_arena_remove_returns.
+Print Assumptions C01_arena_entry_returns.
